@@ -62,6 +62,7 @@ type Task struct {
 	stopAtLock  bool // contention mode: preempt this task right after its next lock acquisition
 	pendingDrop bool
 	wokeAt      time.Duration // simulated instant at which the last real blocking operation fired
+	blockedAt   time.Duration // simulated instant at which it was entered
 	fn          func(*Task)
 	which       string
 	started     bool
@@ -722,6 +723,7 @@ func (s *Sim) BeforeBlock(ctx context.Context, point string, obj interface{}) in
 	t.state = tsBlocked
 	t.point = point
 	t.obj = obj
+	t.blockedAt = time.Since(s.start)
 	s.mu.Unlock()
 	// from here on this goroutine does not hold the token: should the code between this hook and the
 	// blocking operation call further hooks (a change may have put something there), they find no token
@@ -760,7 +762,7 @@ func (s *Sim) AfterBlock(handle interface{}, which string) {
 		runtime.Goexit()
 	}
 	s.BlockWakes.Add(t.point, 1)
-	s.Rec("woke", t.point, "", int64(t.wokeAt))
+	s.Rec("woke", t.point, strconv.FormatInt(int64(t.blockedAt), 10), int64(t.wokeAt))
 }
 
 //go:norace
